@@ -134,3 +134,18 @@ package ctutil
 //@ ensures [no-tree-head-no-verdict] gs.called && gs.res1 != nil ==> result1 != nil && result0 == -1 && !va.called
 //@ ensures [otherwise-the-verdict-at-the-remembered-or-fetched-head] !(gs.called && gs.res1 != nil) ==> va.called && result0 == va.res0 && result1 == va.res1
 //@ at va assert [checked-at-the-size-of-that-head] va.timestamp == timestamp && len(va.rootHash) == 32 && (ls.res != nil ==> va.treeSize == ls.res.TreeSize) && (ls.res == nil ==> va.treeSize == gs.res0.TreeSize)
+
+// C05 / C12: the verifier a LogInfo carries is built from the key in the log-list entry it describes;
+// an unparsable or non-compliant key gives no LogInfo. The client is the one given.
+//@ func newLogInfo
+//@ props C05 C12
+//@ arith int
+//@ site x509.ParsePKIXPublicKey#1 as pk
+//@ site NewSignatureVerifier#1 as nv
+//@ requires log != nil
+//@ fresh result0
+//@ ensures [info-or-error] (result0 != nil) != (result1 != nil)
+//@ ensures [no-verifier-no-info] pk.res1 != nil || (nv.called && nv.res1 != nil) ==> result0 == nil
+//@ ensures [verifier-of-this-logs-key-and-the-given-client] result1 == nil ==> result0.Verifier == nv.res0 && result0.Client == lc && result0.PublicKey == log.Key && result0.Description == log.Description
+//@ at pk assert [parses-the-log-list-key] pk.derBytes == log.Key
+//@ at nv assert [verifier-for-the-parsed-key] nv.pk == pk.res0
